@@ -2,6 +2,8 @@
 // the three code paths: POMDP::Model<MDP::Model> (dense Eigen), POMDP::SparseModel<MDP::SparseModel>
 // (sparse Eigen) and a user-defined model that only answers probability queries (non-Eigen branches).
 //
+// case:  seq <regime> S A O <tables> b[S] L (a o)*L   (filtering along a history, see main)
+// case:  hist <regime> S A O <initial tables> NOPS ops… NB beliefs   (operation history, see main)
 // case:  reset <regime> S A O <tables 1> <tables 2> NB beliefs   (see main)
 // case:  bel <regime> S A O  T[a][s][s1]…  Ob[a][s1][o]…  R3[s][a][s1]…  NB  b_1[S] … b_NB[S]
 // out :  for each model kind (dense, sparse, generic):  "ok" followed by (or "throw <type>" instead of)
@@ -86,7 +88,7 @@ template <typename Build>
 static void emitVariant(Build && build, const std::vector<POMDP::Belief> & beliefs, vio::Out & out) {
     vio::Out tmp;
     try {
-        const auto model = build();
+        const auto & model = build();   // temporary (lifetime extended) or a reference to a live object
         runModel(model, beliefs, tmp);
     } catch (const std::exception & e) {
         out << "throw" << vio::exnName(e);
@@ -209,6 +211,108 @@ int main(int argc, char ** argv) {
             emitVariant([&]{ SparseP m(O, S, A, 0.5); setByTables(m, x2); return m; }, beliefs, out);
             emitVariant([&]{ return SparseP(mkDense()); }, beliefs, out);
             emitVariant([&]{ return UserModel(S, A, O, x2.t, x2.r, x2.ob); }, beliefs, out);
+        } else if (kind == "hist") {
+            // hist <regime> S A O <initial tables> NOPS { <op> <ovl> <values> }* NB beliefs
+            //   op obs c|m  A*S*O values [a][s1][o]   setObservationFunction (container | matrix overload)
+            //   op tr  c|m  A*S*S values [a][s][s1]   setTransitionFunction
+            //   op rw3 c    S*A*S values [s][a][s1]   setRewardFunction(3-D container)
+            //   op rw2 m    S*A   values [s][a]       setRewardFunction(matrix)
+            // One dense and one sparse model object live through the whole history; a setter that throws
+            // std::invalid_argument is caught and the SAME object is used on.
+            // out: snapshot(dense) snapshot(sparse) { status(dense) status(sparse) snapshot(dense) snapshot(sparse) }*
+            //      status = acc | rej ; snapshot = "ok" + the outputs of runModel
+            c.next();
+            const size_t S = c.nextSize(), A = c.nextSize(), O = c.nextSize();
+            const Tables x0 = readTables(c, S, A, O);
+            struct Op { std::string name, ovl; std::vector<double> v; };
+            std::vector<Op> ops(c.nextSize());
+            for (auto & op : ops) {
+                op.name = c.next(); op.ovl = c.next();
+                const size_t cnt = op.name == "obs" ? A*S*O : op.name == "tr" ? A*S*S : op.name == "rw3" ? S*A*S : op.name == "rw2" ? S*A : 0;
+                if (!cnt) throw std::logic_error("unknown op " + op.name);
+                op.v.resize(cnt);
+                for (auto & d : op.v) d = c.nextDouble();
+            }
+            const auto beliefs = readBeliefs(c, S);
+
+            DenseP dense(O, x0.ob, S, A, x0.t, x0.r, 0.5);
+            SparseP sparse(O, x0.ob, S, A, x0.t, x0.r, 0.5);
+            auto snapshot = [&]{
+                emitVariant([&]() -> const DenseP & { return dense; }, beliefs, out);
+                emitVariant([&]() -> const SparseP & { return sparse; }, beliefs, out);
+            };
+            snapshot();
+            for (const auto & op : ops) {
+                // tables in both shapes
+                T3 cont; Matrix3D mat3; Matrix2D mat2;
+                if (op.name == "obs" || op.name == "tr") {
+                    const size_t K = op.name == "obs" ? O : S;
+                    cont.assign(S, std::vector<std::vector<double>>(A, std::vector<double>(K)));
+                    mat3.assign(A, Matrix2D(S, K));
+                    size_t i = 0;
+                    for (size_t a = 0; a < A; ++a) for (size_t s = 0; s < S; ++s) for (size_t k = 0; k < K; ++k) {
+                        cont[s][a][k] = op.v[i]; mat3[a](s, k) = op.v[i]; ++i;
+                    }
+                } else if (op.name == "rw3") {
+                    cont.assign(S, std::vector<std::vector<double>>(A, std::vector<double>(S)));
+                    size_t i = 0;
+                    for (size_t s = 0; s < S; ++s) for (size_t a = 0; a < A; ++a) for (size_t s1 = 0; s1 < S; ++s1) cont[s][a][s1] = op.v[i++];
+                } else {
+                    mat2.resize(S, A);
+                    size_t i = 0;
+                    for (size_t s = 0; s < S; ++s) for (size_t a = 0; a < A; ++a) mat2(s, a) = op.v[i++];
+                }
+                auto apply = [&](auto & model, auto sparseTag) {
+                    constexpr bool isSparse = decltype(sparseTag)::value;
+                    try {
+                        if (op.name == "obs") {
+                            if (op.ovl == "c") model.setObservationFunction(cont);
+                            else if constexpr (isSparse) model.setObservationFunction(toSparse(mat3));
+                            else model.setObservationFunction(mat3);
+                        } else if (op.name == "tr") {
+                            if (op.ovl == "c") model.setTransitionFunction(cont);
+                            else if constexpr (isSparse) model.setTransitionFunction(toSparse(mat3));
+                            else model.setTransitionFunction(mat3);
+                        } else if (op.name == "rw3") {
+                            model.setRewardFunction(cont);
+                        } else {
+                            if constexpr (isSparse) { SparseMatrix2D sp = mat2.sparseView(); sp.makeCompressed(); model.setRewardFunction(sp); }
+                            else model.setRewardFunction(mat2);
+                        }
+                        out << "acc";
+                    } catch (const std::invalid_argument &) {
+                        out << "rej";
+                    }
+                };
+                apply(dense, std::false_type{});
+                apply(sparse, std::true_type{});
+                snapshot();
+            }
+        } else if (kind == "seq") {
+            // seq <regime> S A O <tables> b[S] L (a o)*L
+            // filtering along a history: b <- update(b, a, o) repeatedly; even steps use updateBelief, odd steps
+            // the two-stage pair updateBeliefPartial + updateBeliefPartialNormalized.
+            // out: per variant (dense, sparse, generic): "ok" + L beliefs of S entries
+            c.next();
+            const size_t S = c.nextSize(), A = c.nextSize(), O = c.nextSize();
+            const Tables x = readTables(c, S, A, O);
+            POMDP::Belief b0(S);
+            for (size_t s = 0; s < S; ++s) b0[s] = c.nextDouble();
+            const size_t L = c.nextSize();
+            std::vector<std::pair<size_t, size_t>> h(L);
+            for (auto & ao : h) { ao.first = c.nextSize(); ao.second = c.nextSize(); }
+            auto filter = [&](const auto & model) {
+                POMDP::Belief b = b0;
+                for (size_t k = 0; k < L; ++k) {
+                    const auto [a, o] = h[k];
+                    if (k % 2 == 0) b = POMDP::updateBelief(model, b, a, o);
+                    else b = POMDP::updateBeliefPartialNormalized(model, POMDP::updateBeliefPartial(model, b, a), a, o);
+                    putVec(out, b);
+                }
+            };
+            { DenseP m(O, x.ob, S, A, x.t, x.r, 0.5);  out << "ok"; filter(m); }
+            { SparseP m(O, x.ob, S, A, x.t, x.r, 0.5); out << "ok"; filter(m); }
+            { UserModel m(S, A, O, x.t, x.r, x.ob);    out << "ok"; filter(m); }
         } else throw std::logic_error("unknown case kind " + kind);
     });
 }
